@@ -414,7 +414,7 @@ pub fn gen_case(rng: &mut Rng, id: String, flavor: &str) -> ConcCase {
     let k = b"k".to_vec();
     let k2 = b"j".to_vec();
     // initial state of the key: absent, present, present-but-expired
-    let (prelude, tick) = match rng.below(4) {
+    let (prelude, tick) = match if flavor == "ttl" { *rng.pick(&[2u64, 2, 2, 1]) } else { rng.below(4) } {
         0 => (vec![], 0),
         1 => (vec![COp::Set(k.clone(), b"5".to_vec(), 7, 0, 0)], rng.below(2) * 3),
         2 => (vec![COp::Set(k.clone(), b"old".to_vec(), 7, 2, 0)], 5), // expired, uncollected
